@@ -53,6 +53,7 @@ type BedOpts struct {
 	Env              map[string]string
 	LogLevel         string
 	VerifyClientCert bool
+	NoClientCA       bool // with VerifyClientCert: no tls.ca configured (system roots decide)
 	UdpRcvBuf        int
 	KeepRaw          bool // fake upstreams keep the wire bytes of every query
 }
@@ -274,7 +275,9 @@ func newBedOnce(c *Ctx, name string, o BedOpts) (*Bed, error) {
 		}
 		if kind == "tls" || kind == "https" || kind == "quic" {
 			fmt.Fprintf(&y, "    tls:\n      cert: \"%s\"\n      key: \"%s\"\n", certPath, keyPath)
-			if o.VerifyClientCert {
+			if o.VerifyClientCert && o.NoClientCA {
+				y.WriteString("      verify_client_cert: true\n") // no ca: client certificates are verified against the system roots
+			} else if o.VerifyClientCert {
 				fmt.Fprintf(&y, "      ca: \"%s\"\n      verify_client_cert: true\n", caPath)
 			}
 		}
